@@ -471,6 +471,15 @@ func (s *Server) attachClient(cl *Client, listener string) error {
 	s.Clients.Add(cl) // [MQTT-4.1.0-1]
 	verifPoint("attach.registered", cl.ID)
 
+	select {
+	case <-s.done:
+		// Close has begun and may already have disconnected the clients of this listener: a connection
+		// registered after that would otherwise be served for as long as it likes and keep Close waiting.
+		_ = s.SendConnack(cl, packets.ErrServerUnavailable, false, nil)
+		return fmt.Errorf("ack connection packet: %w", packets.ErrServerShuttingDown)
+	default:
+	}
+
 	err = s.SendConnack(cl, code, sessionPresent, nil) // [MQTT-3.1.4-5] [MQTT-3.2.0-1] [MQTT-3.2.0-2] &[MQTT-3.14.0-1]
 	if err != nil {
 		return fmt.Errorf("ack connection packet: %w", err)
